@@ -103,6 +103,34 @@ def _responses():
     return out
 
 
+def _dataclass_values():
+    """a dataclass and a dataclass extending it (the dataclasses extra is installed for them): what is printed for the derived class must
+    not depend on whether the base class was printed before, and printing must not leave anything on the classes"""
+    try:
+        import dataclasses
+        import prettyprinter as pp
+        pp.install_extras(['dataclasses'], warn_on_error=False)
+    except Exception:
+        return []
+    g = globals()
+    if 'DPoint' not in g:
+        @dataclasses.dataclass
+        class DPoint:
+            x: int
+            y: int = 0
+
+        @dataclasses.dataclass
+        class DPoint3(DPoint):
+            z: int = 0
+            tags: list = dataclasses.field(default_factory=list)
+        for c in (DPoint, DPoint3):
+            c.__module__ = 'corpus_values'
+            c.__qualname__ = c.__name__
+            g[c.__name__] = c
+    P, P3 = g['DPoint'], g['DPoint3']
+    return [P3(1, 2, 3, ['a']), P(1, 2), [P3(4, 5, 6, ['b', 'c']), P(7)], P3(1)]
+
+
 def corpus():
     import prettyprinter as pp
     dd = collections.defaultdict(list)
@@ -144,4 +172,7 @@ def corpus():
         _PlainStatus(), _EnumStatus.OK, [_EnumStatus.FAIL, _PlainStatus()],
         # predicate printers: the first-registered accepting predicate wins, whatever was printed before
         Marked('a'), Marked('b'), Marked('ab'), [Marked('ba'), Marked('b')], Marked('c'),
-    ] + _responses()
+        # tuple keys that sort fine among each other, inserted in another order than the sorted one (next to the dicts above whose tuple
+        # keys cannot be compared: whether two tuples compare depends on the values, not on their types)
+        {(2, 1): 'b', (1, 2): 'a', (1, 1): 'c'}, [{('b', 2): 0, ('a', 3): 1}], {(3,): 0, (1, 'x'): 1, (2, 5): 2},
+    ] + _responses() + _dataclass_values()
